@@ -9,7 +9,7 @@ META = {
     "technique": "Coq proof (first-matching-route, key-hash stickiness across the single and batch injection paths, round-robin balance) over an executable "
                  "routing model incl. SipHash-1-3 + model/implementation differential through resolve_inject_target and inject_batch",
     "design_ref": "DESIGN.md §7 C34",
-    "level_text": "proof",
+    "level_text": "Coq theorems: first matching route / default, trailing-wildcard semantics, same key value => same replica on the single and batch paths (any hash), round-robin loads differ by at most one; no axioms. Routing model incl. SipHash-1-3 tied to routing.rs / pipeline_group.rs / coordinator.rs inject paths by a differential run on every check",
     "level_note": "Theorems are about coq/theories/Coord/Route.v (event_type_matches, find_target_pipeline, ReplicaGroup::select_replica, replica-group registration "
                   "of commit_deploy_group, the key text of both injection paths); stickiness and balance are proved for an arbitrary hash function, the "
                   "differential run instantiates it with a Gallina SipHash-1-3 that is compared with std's DefaultHasher. Modelled, not proved: the .evt/JSONL "
